@@ -196,6 +196,40 @@ CLAIMS["C19"] = dict(
     technique="key-typing sensitivity analysis (strict-parameter summaries x items() loops) + sibling call-site agreement + selector normal form",
     ref="3/C19",
 )
+CLAIMS["C03"] = dict(
+    text="The round-trip equality itself is a relation between runtime values and is not decided. Decided are the agreements between "
+    "its two components: (1) every Python leaf type the type resolver can emit (read from _resolve_string.format_mapping and the "
+    "ResolvedType literals) is handled by the bundled converter - cattrs-native (frozen table) or a structure+unstructure hook pair "
+    "registered at module level; (2) each hook pair is an inverse pair from a codec table (b64decode/b64encode, fromisoformat/isoformat, "
+    "UUID/str); (3) every property passes, on every path of the generator's property loop, through `field_mappings[prop_name] = "
+    "field_name` and `fields_data.append`, and the two Meta maps are the swapped rendering of that one mapping; (4) the structure / "
+    "unstructure function builders read Meta.key_transform_with_load / _with_dump and pass override(rename=) per field; (5) hook "
+    "registration descends into every field type of every dataclass (must-pass-through on the field loop, unconditional registration "
+    "inside generics/unions).",
+    technique="table agreement between generator and converter + inverse-codec pairing + must-pass-through on the property loop + recursion-shape checks",
+    ref="3/C03",
+)
+CLAIMS["C14"] = dict(
+    text="Losslessness for all payload/variant pairs is not decided (and the first-success loop is a recorded finding). Decided on "
+    "_structure_union's CFG: the discriminated path is entered on key presence (`property in data`), the exceptional edge of the "
+    "mapped-variant structure call reaches only raises (never the sequential loops, never a normal return), an unmapped value raises; "
+    "first-success loops must reject extra keys to be lossless (they do not: known finding with witness); the resolver renders union "
+    "variants in spec order with order-preserving de-duplication; render_alias attaches discriminator metadata whenever a "
+    "discriminator exists and the target starts with `Union[` (no further condition, so nullable unions keep it).",
+    technique="exceptional-edge reachability on the CFG + guard-shape checks + missing-guard rule on first-success loops",
+    ref="3/C14",
+)
+CLAIMS["C16"] = dict(
+    text="The round-trip laws and hook-registration history effects are runtime relations and are not decided. Decided: every exceptional "
+    "exit of structure_from_dict's try re-raises ValueError (validation errors through _extract_errors' field path); in "
+    "DataclassSerializer every recursive descent is dominated by the visited check with the object registered (and un-registered in a "
+    "finally), while delegations of whole subtrees to cattrs are unguarded (two known findings with RecursionError witnesses); every "
+    "container-carrying return strips None; the post-processor recurses with itself on list items and dict values and re-enters the "
+    "guarded serialiser for leftover dataclass instances; plus the shared converter rules (inverse hook pairs, rename plumbing, "
+    "recursive registration).",
+    technique="exception-path conversion check + guarded-descent dominance on the CFG + return-path stripping + recursion-shape of the post-processor",
+    ref="3/C16",
+)
 
 NOT_APPLICABLE = {}
 
